@@ -119,6 +119,8 @@ fn hdr_std_history_sched(k: usize, lens: [usize; 4], owned: [bool; 4]) {
     let mut e1 = [0u8; 96]; let n1 = render(&mut e1, [(b"Vary", &bg), (b"Content-Type", &key)]);
     let mut e2 = [0u8; 96]; let n2 = render(&mut e2, [(b"Content-Type", &key), (b"Vary", &bg)]);
     assert!(buf_is(&buf, &e1, n1) || buf_is(&buf, &e2, n2), "wire image: every live header exactly once with its latest value, no stale line, terminated by an empty line");
+    // drop glue of the header block / output buffer is not under contract (it dominated several queries: measured)
+    std::mem::forget(h); std::mem::forget(buf);
     kani::cover!(true);
 }
 
@@ -150,6 +152,8 @@ fn hdr_custom_history_body(k: usize) {
     assert!(buf.len() == h.size, "the serializer writes exactly `size` bytes");
     let mut e1 = [0u8; 96]; let n1 = render(&mut e1, [(b"Vary", &bg), (b"X-K", &key)]);
     assert!(buf_is(&buf, &e1, n1), "wire image: standard headers, then custom headers, each live header once with its latest value, empty line");
+    // drop glue of the header block / output buffer is not under contract (it dominated several queries: measured)
+    std::mem::forget(h); std::mem::forget(buf);
     kani::cover!(true);
 }
 
